@@ -38,6 +38,10 @@ Delta(k) == FExp(LnDelta(k))
 Machs == {0, 40, 80, 95}
 Ffm2(k, m) == FExp(FMul(3800000, LnTheta(k, 0)) - LnDelta(k) + m * m * 20)
 
+\* theta and delta are RATIOS to the sea-level reference the caller names: the same state in hPa and degrees Rankine
+\* with P_SL = 1013.25, T_SL = 518.67 gives the same factor (the harness evaluates both forms)
+Ffm2Units == {"Pa_K", "hPa_R"}
+
 Offsets == {0, 10}
 HcCo(k, dT) == FExp(FMul(3300000, LnTheta(k, dT)) - FMul(1020000, LnDelta(k)))
 
